@@ -22,6 +22,11 @@ type vC13I interface {
 	put(i int)
 }
 
+type vC13Impl struct{ n int }
+
+func (t *vC13Impl) Get(i int) int { return t.n + i }
+func (t *vC13Impl) put(i int)     {}
+
 // vRejected runs one configuration attempt; it must end in a panic (or error reported as
 // panic by the API) and must not have written a single byte of the image.
 func vRejected(f func(), id string) {
@@ -81,7 +86,19 @@ func VC_C13_method_and_interface_mistakes() {
 	vPristine(vC13G)
 	b := Create()
 	var iv vC13I
-	switch verifChoice("case", 6) {
+	vMapI := map[string]vC13I{"k": &vC13Impl{n: 1}}
+	vSliceI := []vC13I{&vC13Impl{n: 2}}
+	switch verifChoice("case", 9) {
+	case 6: // a map of interface values is not a pointer to an interface variable
+		vRejected(func() { b.Interface(vMapI).Method("Get").Apply(func(ctx *IContext, i int) int { return 0 }) }, "C13.iface.map-of-interface")
+		verifAssert(len(vMapI) == 1 && vMapI["k"].Get(1) == 2, "C13.iface.container-untouched")
+	case 7: // nor is a slice of them
+		vRejected(func() { b.Interface(vSliceI).Method("Get").Apply(func(ctx *IContext, i int) int { return 0 }) }, "C13.iface.slice-of-interface")
+		verifAssert(len(vSliceI) == 1 && vSliceI[0].Get(1) == 3, "C13.iface.container-untouched")
+	case 8: // nor an interface value itself
+		var held vC13I = &vC13Impl{n: 3}
+		vRejected(func() { b.Interface(held).Method("Get").Apply(func(ctx *IContext, i int) int { return 0 }) }, "C13.iface.interface-value")
+		verifAssert(held.Get(1) == 4, "C13.iface.container-untouched")
 	case 0:
 		vRejected(func() { b.Struct(&vC13T{}).Method("Nope").Apply(func(t *vC13T, i int) int { return 0 }) }, "C13.method.unknown-method")
 	case 1:
